@@ -195,6 +195,9 @@ def gen_cases(seed, tier):
     for i in range(n):
         op = OPS[i % len(OPS)] if i < 3 * len(OPS) else str(rng.choice(OPS, p=w))
         cases.append(_gen_one(rng, op, tier, i))
+        if i % 5 == 3:
+            # history on one tensor object: operator(u), u changed in place, operator(u) again (all operators are linear in u)
+            cases[-1]["history"] = [-1.75, 0.5, 2.5][i % 3]
     # composed second-order calls: div(grad(u, ..), ..) and jac(grad(u, ..), ..)
     rng2 = np.random.default_rng([seed, 3, 1])
     for i in range(40 if tier == "quick" else 1000):
@@ -313,7 +316,7 @@ def _expected(c, plan, vals, majs, extra):
     raise AssertionError(op)
 
 
-def _call(c, P, extra, batch):
+def _call(c, P, extra, batch, no_history=False):
     """Builds fresh leaf tensors and the field with torch operations and calls the real operator.
     Returns (result tensor, forward field as numpy float64)."""
     from torchphysics.utils import differentialoperators as D
@@ -347,11 +350,24 @@ def _call(c, P, extra, batch):
     else:
         u = torch.cat(comps, dim=-1)
     dv = [env[nme] for nme in c["deriv"]]
-    fwd = u.detach().to(torch.float64).numpy()
+    fwd = u.detach().clone().to(torch.float64).numpy()
+    hist = bool(c.get("history")) and c.get("mode", "-") == "-" and not no_history
+    if hist:
+        u = u * 1.0                  # a tensor whose in-place change autograd permits (tanh etc. need their own output)
+    out = _apply(c, D, u, dv, extra, batch, dt)
+    if hist:
+        a = float(c["history"])
+        u.mul_(a)                    # the same tensor object now holds a * u
+        out = (out, _apply(c, D, u, dv, extra, batch, dt) / a)
+    return out, fwd
+
+
+def _apply(c, D, u, dv, extra, batch, dt):
+    op = c["op"]
     if op == "div_grad":
-        return D.div(D.grad(u, *dv), *dv), fwd
+        return D.div(D.grad(u, *dv), *dv)
     if op == "jac_grad":
-        return D.jac(D.grad(u, *dv), *dv), fwd
+        return D.jac(D.grad(u, *dv), *dv)
     f = getattr(D, op)
     if op == "laplacian" and c.get("mode") == "grad=":
         g = D.grad(u, *dv)
@@ -369,7 +385,7 @@ def _call(c, P, extra, batch):
         out = f(u, torch.tensor(extra["conv"].reshape(*batch, -1), dtype=dt), *dv)
     else:
         out = f(u, *dv)
-    return out, fwd
+    return out
 
 
 def _zero_class(c):
@@ -426,6 +442,9 @@ def run_case(c):
         res["viol"].append(viol("exception", "%s(%s) raised %r for field %s" % (
             op, ",".join(c["deriv"]), e, c["field"]), site=exc_site(e), exc=type(e).__name__, **mech))
         return res
+    out_again = None
+    if isinstance(out, tuple):
+        out, out_again = out
     # the torch function must be the same function as the reference's (else the harness is wrong)
     ferr = np.abs(fwd.reshape(N, -1) - fexp)
     if not np.all(ferr <= 50 * RTOL[c["dtype"]] * (fmag + FLOOR)):
@@ -457,6 +476,22 @@ def run_case(c):
                                       err[idx], tol[idx], int(bad.sum()), err.size, batch, c["dtype"], c["field"]),
             **mech))
     _count_branches(c, cnt, exp)
+    if out_again is not None and isinstance(out_again, torch.Tensor) and tuple(out_again.shape) == want_shape:
+        got2 = out_again.detach().to(torch.float64).numpy().reshape(N, *tail)
+        err2 = np.abs(got2 - exp)
+        bad2 = ~(err2 <= 2 * tol)
+        res["judged"] += int(err2.size)
+        cnt["history_second_calls"] = 1
+        if bad2.any():
+            idx = np.unravel_index(int(np.argmax(np.where(np.isnan(err2), np.inf, err2 / tol))), err2.shape)
+            res["viol"].append(viol(
+                "value_after_inplace_change", "%s(%s) called again after u was scaled in place by %g: row %d entry %s: got %.9g / %g, "
+                "analytic %.9g; %d of %d entries off; field %s" % (op, ",".join(c["deriv"]), c["history"], idx[0], list(idx[1:]),
+                                                                  got2[idx] * c["history"], c["history"], exp[idx], int(bad2.sum()), err2.size,
+                                                                  c["field"]), history=True, **mech))
+    elif out_again is not None:
+        res["viol"].append(viol("shape", "%s called again after an in-place change of u returned %s" % (
+            op, tuple(out_again.shape) if hasattr(out_again, "shape") else type(out_again).__name__), history=True, **mech))
 
     # ---- row independence -------------------------------------------------------------------
     # (also when the values are off: a result that depends on the other rows is a separate observation)
@@ -558,7 +593,7 @@ def _row_independence(c, rng, P, extra, batch, got, mag, res, mech):
     variants.append(("augmented", Pa, Ea, nb, np.arange(N), np.arange(N)))
     for (what, P2, E2, b2, src, dst) in variants:
         try:
-            out2, _ = _call(c, P2, E2, b2)
+            out2, _ = _call(c, P2, E2, b2, no_history=True)
         except Exception as e:
             res["viol"].append(viol("exception", "%s on the batch with other rows %s raised %r" % (c["op"], what, e),
                                     site=exc_site(e), exc=type(e).__name__, variant=what, **mech))
